@@ -236,43 +236,39 @@ func c09Run(raw json.RawMessage) (res Result, err error) {
 	res.Coq = cq.Rec(cq.F("k_tf", cq.Z(st.TfNs)), cq.F("k_plen", cq.Z(int64(plen))), cq.F("k_hist", cq.List(hist)),
 		cq.F("k_state", cq.List(state)), cq.F("k_code", cq.Nat(o.Code)), cq.F("k_out", cq.Hex(o.Out)))
 
-	// ---- finding classes: executable mirrors of the Coq guards, on the input (and the recorded block lengths)
+	// ---- finding classes: executable mirrors of the Coq guards, decided PER WRITTEN ROW on the input
+	// (real TimeToIndex / GetIntervalTicks32Bit / GetTimeFromTicks), plus the recorded block lengths for F4
 	step := (int64(tf) + 4294967295) / 4294967296
-	f1, f2, f3 := false, false, false
 	type wr struct {
-		t   time.Time
-		pay string
+		t, q             time.Time // written time; the time the codec quantises it to (in its OWN interval)
+		pay              string
+		late, idx0, misf bool // F1 row, F2 row, F3 row (merged into another year's command)
 	}
 	var written []wr
+	f1, f2, f3 := false, false, false
 	for _, w := range in.Writes {
-		var y0 int16
+		var y0, ccy int16
 		var pi int64
-		var ccy int16
 		for i, row := range w {
 			t := time.Unix(row.Sec, int64(row.Ns)).UTC()
-			written = append(written, wr{t, string(row.Pay)})
 			y := int16(t.Year())
 			idx := io.TimeToIndex(t, tf)
-			if idx == 0 {
-				f2 = true
-			}
+			x := wr{t: t, pay: string(row.Pay), idx0: idx == 0}
 			if i == 0 {
 				y0, pi, ccy = y, idx, y
 			} else if idx == pi && y == y0 {
-				if ccy != y {
-					f3 = true
-				}
+				x.misf = ccy != y
 			} else {
 				pi, ccy = idx, y
 			}
 			ticks := io.GetIntervalTicks32Bit(t, idx, ipd)
 			ist := io.IndexToTime(idx, tf, y)
 			sec, ns := executor.GetTimeFromTicks(uint64(ist.Unix()), uint32(ipd), ticks)
-			q := time.Unix(int64(sec), int64(int32(ns)))
-			d := t.Sub(q)
-			if d < 0 || int64(d) > step || q.Before(ist) || !q.Before(ist.Add(tf)) {
-				f1 = true
-			}
+			x.q = time.Unix(int64(sec), int64(int32(ns)))
+			d := t.Sub(x.q)
+			x.late = d < 0 || int64(d) > step || x.q.Before(ist) || !x.q.Before(ist.Add(tf))
+			f1, f2, f3 = f1 || x.late, f2 || x.idx0, f3 || x.misf
+			written = append(written, x)
 		}
 	}
 	f4 := false
@@ -299,61 +295,91 @@ func c09Run(raw json.RawMessage) (res Result, err error) {
 	}
 	fourH := in.Tf == "4H"
 
-	// ---- property oracle on the implementation's outputs
+	// ---- property oracle on the implementation's outputs.
+	// Part A (what no known finding excuses): the query succeeds unless 4H / F4; exactly the index-0 rows
+	// are missing; every row untouched by F1/F2/F3 is returned with its quantised time and its payload;
+	// those rows appear in time order.  Part B: the full property.  A failure of A is never classified.
 	rl := int(st.Vrl) + 8
-	detail := ""
+	type rr struct {
+		t    time.Time
+		pay  string
+		used bool
+	}
+	var got []rr
+	for i := 0; i+rl <= len(o.Out); i += rl {
+		row := o.Out[i : i+rl]
+		got = append(got, rr{t: time.Unix(int64(binary.LittleEndian.Uint64(row)), int64(int32(binary.LittleEndian.Uint32(row[rl-4:])))),
+			pay: string(row[8 : rl-4])})
+	}
+	detailA, detailB := "", ""
+	nIdx0 := 0
+	for _, w := range written {
+		if w.idx0 {
+			nIdx0++
+		}
+	}
 	switch {
+	case o.Code == 1 && fourH:
+		detailB = "the query over all time is rejected: " + o.Msg
+	case o.Code == 2 && f4:
+		detailB = "the query over all time panics: " + o.Msg
 	case o.Code != 0:
-		detail = fmt.Sprintf("the query over all time failed (code %d): %s", o.Code, o.Msg)
-	case len(o.Out)/rl != len(written):
-		detail = fmt.Sprintf("%d records written, %d returned", len(written), len(o.Out)/rl)
+		detailA = fmt.Sprintf("the query over all time failed (code %d): %s", o.Code, o.Msg)
+	case len(got) != len(written)-nIdx0:
+		detailA = fmt.Sprintf("%d records written (%d with index 0), %d returned", len(written), nIdx0, len(got))
 	default:
-		type rr struct {
-			t   time.Time
-			pay string
-		}
-		var got []rr
-		for i := 0; i+rl <= len(o.Out); i += rl {
-			row := o.Out[i : i+rl]
-			t := time.Unix(int64(binary.LittleEndian.Uint64(row)), int64(int32(binary.LittleEndian.Uint32(row[rl-4:]))))
-			got = append(got, rr{t, string(row[8 : rl-4])})
-			if len(got) > 1 && t.Before(got[len(got)-2].t) {
-				detail = fmt.Sprintf("returned rows are not in time order at row %d", len(got)-1)
-			}
-		}
-		// match written and returned records payload by payload, in time order
-		gw := map[string][]time.Time{}
-		gg := map[string][]time.Time{}
+		// clean rows: exact match on (quantised time, payload)
 		for _, w := range written {
-			gw[w.pay] = append(gw[w.pay], w.t)
-		}
-		for _, g := range got {
-			gg[g.pay] = append(gg[g.pay], g.t)
-		}
-		for pay, wts := range gw {
-			gts := gg[pay]
-			if len(gts) != len(wts) {
-				detail = fmt.Sprintf("a payload written %d times is returned %d times", len(wts), len(gts))
-				break
+			if w.late || w.idx0 || w.misf {
+				continue
 			}
-			sort.Slice(wts, func(a, b int) bool { return wts[a].Before(wts[b]) })
-			sort.Slice(gts, func(a, b int) bool { return gts[a].Before(gts[b]) })
-			for i := range wts {
-				ist := c11IntervalStart(wts[i], tf)
-				d := wts[i].Sub(gts[i])
-				if d < 0 || int64(d) > step || gts[i].Before(ist) || !gts[i].Before(ist.Add(tf)) {
-					detail = fmt.Sprintf("record written at %s is returned at %s (interval %s, step %d ns)",
-						wts[i].Format(time.RFC3339Nano), gts[i].UTC().Format(time.RFC3339Nano), in.Tf, step)
+			found := false
+			for j := range got {
+				if !got[j].used && got[j].pay == w.pay && got[j].t.Equal(w.q) {
+					got[j].used, found = true, true
 					break
 				}
 			}
-			if detail != "" {
+			if !found {
+				detailA = fmt.Sprintf("record written at %s (quantised %s) is not returned with its time and payload",
+					w.t.Format(time.RFC3339Nano), w.q.UTC().Format(time.RFC3339Nano))
 				break
 			}
 		}
+		var last time.Time
+		seen := false
+		for _, g := range got {
+			if g.used {
+				if seen && g.t.Before(last) {
+					detailA = "returned rows (those no known finding touches) are not in time order"
+				}
+				last, seen = g.t, true
+			}
+		}
+		// part B: everything, as the property states it
+		if nIdx0 > 0 {
+			detailB = fmt.Sprintf("%d records written, %d returned", len(written), len(got))
+		}
+		for j := 1; j < len(got) && detailB == ""; j++ {
+			if got[j].t.Before(got[j-1].t) {
+				detailB = fmt.Sprintf("returned rows are not in time order at row %d", j)
+			}
+		}
+		for _, w := range written {
+			if detailB != "" {
+				break
+			}
+			if w.late || w.misf {
+				detailB = fmt.Sprintf("record written at %s is returned at another time (quantised in its own interval: %s; interval %s, step %d ns)",
+					w.t.Format(time.RFC3339Nano), w.q.UTC().Format(time.RFC3339Nano), in.Tf, step)
+			}
+		}
 	}
-	if detail != "" {
-		res.Holds, res.Detail = false, detail
+	switch {
+	case detailA != "":
+		res.Holds, res.Detail = false, detailA
+	case detailB != "":
+		res.Holds, res.Detail = false, detailB
 		switch {
 		case fourH:
 			res.Class = "timeframe-4H-looked-up-as-2H"
